@@ -10,6 +10,7 @@ import (
 	"reflect"
 	"runtime/debug"
 	"strings"
+	"sync"
 	"time"
 
 	"github.com/traefik/yaegi/interp"
@@ -245,7 +246,14 @@ func observe(s *scn, full bool) (o obs) {
 		})
 	case s.Cs == "H": // host calls script
 		o.CrossE = guard(func() error {
-			i, err := newInterp(&out, full, nil)
+			// Mark tells the host that the evaluation of the interlude (below) is running
+			started := make(chan struct{})
+			var once sync.Once
+			var extra map[string]reflect.Value
+			if interlude(s) {
+				extra = map[string]reflect.Value{"Mark": reflect.ValueOf(func() { once.Do(func() { close(started) }) })}
+			}
+			i, err := newInterp(&out, full, extra)
 			if err != nil {
 				return err
 			}
@@ -266,10 +274,25 @@ func observe(s *scn, full bool) (o obs) {
 			// cancelled evaluation is a stuttering step for earlier definitions (Defs.tla,
 			// C10), so the prediction is unchanged.
 			if interlude(s) {
+				// The evaluation is cancelled once it RUNS (it has called Mark): an evaluation
+				// cancelled before it started is another matter (C09/C10: its goroutine may
+				// begin to work on the interpreter after EvalWithContext has returned).
 				ctx, cancel := context.WithCancel(context.Background())
-				go func() { time.Sleep(4 * time.Millisecond); cancel() }()
-				i.EvalWithContext(ctx, "for {}")
+				go func() {
+					select {
+					case <-started:
+						time.Sleep(2 * time.Millisecond)
+					case <-time.After(2 * time.Minute):
+					}
+					cancel()
+				}()
+				_, ierr := i.EvalWithContext(ctx, "hostpkg.Mark()\nfor {\n}")
 				cancel()
+				select {
+				case <-started:
+				default:
+					return fmt.Errorf("harness: the evaluation of the interlude did not run: %v", ierr)
+				}
 				time.Sleep(5 * time.Millisecond)
 				if _, err := i.Eval("1"); err != nil {
 					return fmt.Errorf("eval after a cancelled evaluation: %w", err)
